@@ -93,6 +93,13 @@ def mfptAll (lag : Rat) (Z : Mat) (π : Vec) : Mat :=
 def Stationary (n : Nat) (T : Mat) (π : Vec) : Prop :=
   (∀ j, j < n → sumTo n (fun i => π i * T i j) = π j) ∧ sumTo n π = 1
 
+/-- (specification vocabulary, not code) the set `A` can be reached from state `i` along
+positive-probability steps inside `0 … n-1`; "ergodic" enters the theorems as
+`∀ i < n, Reach n T A i`. -/
+inductive Reach (n : Nat) (T : Mat) (A : List Nat) : Nat → Prop
+  | base {i : Nat} : i ∈ A → Reach n T A i
+  | step {i j : Nat} : j < n → 0 < T i j → Reach n T A j → Reach n T A i
+
 /-! ### `tpt.py` -/
 
 /-- `reverse_committors = 1 - forward_committors` (`_get_data_from_tprob`) -/
